@@ -141,6 +141,7 @@ class _Normalizer:
                 if isinstance(st, ast.AugAssign) and isinstance(st.target, ast.Name):
                     aug.add(st.target.id)
             self.globals_rebound |= aug
+            self._each_function(m, self._short_circuit_forms)
             self._each_function(m, self._memo_elision)
             self._each_function(m, self._guard_identity)
             for rnd in range(5):
@@ -1314,6 +1315,8 @@ class _Normalizer:
                 n.operand = strip(n.operand)
             elif isinstance(n, ast.comprehension):
                 n.ifs = [strip(x) for x in n.ifs]
+            elif isinstance(n, ast.Expr) and isinstance(n.value, ast.Call) and isinstance(n.value.func, ast.Name) and n.value.func.id == 'bool':
+                n.value = strip(n.value)      # the value is thrown away: only the evaluation (with its short circuit) remains
 
     # ------------------------------------------------------------------ 6b. one spelling for builtin idioms
     ITER_CONSUMERS = ('max', 'min', 'sorted', 'list', 'tuple', 'set', 'frozenset', 'iter', 'enumerate', 'any', 'all', 'sum', 'len')
@@ -1383,6 +1386,88 @@ class _Normalizer:
                         return ast.copy_location(ast.Call(func=fn, args=[n.func.value] + list(n.args), keywords=[]), n)
                 return n
         T().visit(fnode)
+        ast.fix_missing_locations(fnode)
+
+    def _short_circuit_forms(self, fnode, cls, local):
+        """* ``any(f() for f in (a, b, c))`` -> ``a() or b() or c()`` and ``all(..)`` -> ``and`` (the display may be a local bound once,
+          right before, to a tuple / list of names and attribute chains): both stop at the first decisive call, in display order.  In a
+          position that only asks for truth ``any`` is the ``or`` chain itself; elsewhere ``bool(..)`` is kept.
+        * ``if (x := E) <op> ...:`` -> ``x = E`` before the ``if`` (the assignment expression is the first thing the test evaluates)."""
+        me = self
+        binds: Dict[str, List[ast.expr]] = {}
+        for n in ast.walk(fnode):
+            if isinstance(n, ast.Assign) and len(n.targets) == 1 and isinstance(n.targets[0], ast.Name):
+                binds.setdefault(n.targets[0].id, []).append(n.value)
+
+        def display_of(it):
+            if isinstance(it, ast.Name) and len(binds.get(it.id, [])) == 1:
+                it = binds[it.id][0]
+            if isinstance(it, (ast.Tuple, ast.List)) and it.elts and all(_is_simple(e) for e in it.elts):
+                return it.elts
+            return None
+
+        class T(ast.NodeTransformer):
+            def visit_FunctionDef(self_, n):
+                return n if n is not fnode else self_.generic_visit(n)
+            visit_AsyncFunctionDef = visit_FunctionDef
+
+            def visit_Call(self_, n):
+                n = self_.generic_visit(n)
+                if isinstance(n.func, ast.Name) and n.func.id in ('any', 'all') and n.func.id not in local and len(n.args) == 1 \
+                        and not n.keywords and isinstance(n.args[0], (ast.GeneratorExp, ast.ListComp)) and len(n.args[0].generators) == 1:
+                    g = n.args[0].generators[0]
+                    elt = n.args[0].elt
+                    if not g.ifs and isinstance(g.target, ast.Name) and isinstance(elt, ast.Call) and isinstance(elt.func, ast.Name) \
+                            and elt.func.id == g.target.id and not elt.keywords \
+                            and not any(isinstance(y, ast.Name) and y.id == g.target.id for a in elt.args for y in ast.walk(a)):
+                        elts = display_of(g.iter)
+                        if elts is not None and len(elts) <= 8:
+                            calls = [ast.Call(func=copy.deepcopy(e), args=copy.deepcopy(elt.args), keywords=[]) for e in elts]
+                            me.stats['short_circuit_forms'] = me.stats.get('short_circuit_forms', 0) + 1
+                            chain = ast.BoolOp(op=ast.Or() if n.func.id == 'any' else ast.And(), values=calls) if len(calls) > 1 else calls[0]
+                            return ast.copy_location(ast.Call(func=ast.Name(id='bool', ctx=ast.Load()), args=[chain], keywords=[]), n)
+                return n
+        T().visit(fnode)
+        # a display local that only fed the comprehension is gone
+        for blk in _blocks(fnode):
+            for st in list(blk):
+                if isinstance(st, ast.Assign) and len(st.targets) == 1 and isinstance(st.targets[0], ast.Name) \
+                        and isinstance(st.value, (ast.Tuple, ast.List)) and st.value.elts and all(_is_simple(e) for e in st.value.elts) \
+                        and not any(isinstance(y, ast.Name) and y.id == st.targets[0].id and isinstance(y.ctx, ast.Load) for y in ast.walk(fnode)):
+                    blk.remove(st)
+                    if not blk:
+                        blk.append(ast.Pass())
+        # walrus at the front of an if test
+        for blk in _blocks(fnode):
+            i = 0
+            while i < len(blk):
+                st = blk[i]
+                if isinstance(st, ast.If):
+                    t = st.test
+                    first = t
+                    while True:
+                        if isinstance(first, ast.BoolOp):
+                            first = first.values[0]
+                        elif isinstance(first, ast.Compare):
+                            first = first.left
+                        elif isinstance(first, ast.UnaryOp) and isinstance(first.op, ast.Not):
+                            first = first.operand
+                        else:
+                            break
+                    if isinstance(first, ast.NamedExpr) and isinstance(first.target, ast.Name):
+                        asg = ast.Assign(targets=[ast.Name(id=first.target.id, ctx=ast.Store())], value=first.value)
+                        ast.copy_location(asg, st)
+
+                        class R(ast.NodeTransformer):
+                            def visit_NamedExpr(self_, n):
+                                if n is first:
+                                    return ast.copy_location(ast.Name(id=first.target.id, ctx=ast.Load()), n)
+                                return self_.generic_visit(n)
+                        st.test = R().visit(st.test)
+                        blk.insert(i, asg)
+                        me.stats['short_circuit_forms'] = me.stats.get('short_circuit_forms', 0) + 1
+                        i += 1
+                i += 1
         ast.fix_missing_locations(fnode)
 
     def _missing_tables(self) -> Dict[str, ast.expr]:
